@@ -300,6 +300,39 @@ theorem gen_complete_registry_goLib_in_partial (hesc : EscapeHtmlIs F) (names : 
 example : EscapeHtmlIs escF ∧ (∀ name ∈ ([] : List Bytes), DirIs escF name) ∧ (∀ name ∈ ([] : List Bytes), DirEq escF name) :=
   ⟨escF_escape, fun _ h => (by cases h), fun _ h => (by cases h)⟩
 
+/-- STATEMENT LEVEL (C04, the converse WITH directives): a list of commands met inside a template of the registry
+    (generator scope `sc`, output variable `buf`), prints with arbitrary lists of the directives both backends implement,
+    under `SoyutilsIs F` and `SoyutilsEq F`.  Where Spec/Eval.renderCmds WITH THE GO LIBRARY renders the commands to `t`,
+    running the generated statements — calls served by the table of the generated functions — COMPLETES with the buffer
+    holding its old content followed by exactly `t`, or leaves the common subset (`unspec`); it never throws. -/
+theorem gen_complete_cmds_goLib_partial (hlib : SoyutilsIs F) (heq : SoyutilsEq F) (reg : Registry.Reg) (table : List JsFunc)
+    (fuel : Nat) (hasBundle : Bool) (hdirs : ∀ t ∈ reg, dirBlock dirsOk hasBundle t.body = true) (htab : TableOk reg table)
+    (d : Nat) (ae : Autoescape) (buf : Bytes) (entry : Spec.Eval.Binds) (cmds : CmdList)
+    (hpl : dirCmds dirsOk hasBundle cmds = true) (sc : Scope) (r : JsStmts × Scope) (h : toCmds ae buf cmds sc = some r)
+    (env : SEnv) (jenv : JEnv) (out : Bytes) (hs : ScOk sc) (hg : GoodBuf sc buf) (hrel : C04c.EnvRel entry sc env jenv)
+    (hb : BufIs buf jenv out) (t : Bytes)
+    (ht : Spec.Eval.renderCmds reg hasBundle (ae != .off) entry (Spec.Eval.renderTmpl reg hasBundle (some goLib) d) (some goLib)
+      cmds env = .val t) (fuel' : Nat) :
+    (∃ jenv', execStmts F (callFn F table fuel d) fuel' r.1 jenv = .ok jenv' ∧ BufIs buf jenv' (out ++ t)) ∨
+      execStmts F (callFn F table fuel d) fuel' r.1 jenv = .unspec :=
+  gen_complete_registry_cmds_dirs_partial F reg table fuel hlib.escapeHtml dirsOk (some goLib)
+    (printGe_dirsIn F hlib.escapeHtml libNames heq.all) hasBundle hdirs htab d ae buf entry cmds hpl sc r h env jenv out hs hg hrel hb t ht
+    fuel'
+
+/-- the same, read as "no TypeError where Spec/Eval with the Go library renders" -/
+theorem gen_no_throw_cmds_goLib_partial (hlib : SoyutilsIs F) (heq : SoyutilsEq F) (reg : Registry.Reg) (table : List JsFunc)
+    (fuel : Nat) (hasBundle : Bool) (hdirs : ∀ t ∈ reg, dirBlock dirsOk hasBundle t.body = true) (htab : TableOk reg table)
+    (d : Nat) (ae : Autoescape) (buf : Bytes) (entry : Spec.Eval.Binds) (cmds : CmdList)
+    (hpl : dirCmds dirsOk hasBundle cmds = true) (sc : Scope) (r : JsStmts × Scope) (h : toCmds ae buf cmds sc = some r)
+    (env : SEnv) (jenv : JEnv) (out : Bytes) (hs : ScOk sc) (hg : GoodBuf sc buf) (hrel : C04c.EnvRel entry sc env jenv)
+    (hb : BufIs buf jenv out) (t : Bytes)
+    (ht : Spec.Eval.renderCmds reg hasBundle (ae != .off) entry (Spec.Eval.renderTmpl reg hasBundle (some goLib) d) (some goLib)
+      cmds env = .val t) (fuel' : Nat) :
+    execStmts F (callFn F table fuel d) fuel' r.1 jenv ≠ .error := by
+  intro hx
+  rcases gen_complete_cmds_goLib_partial F hlib heq reg table fuel hasBundle hdirs htab d ae buf entry cmds hpl sc r h env jenv out hs hg
+    hrel hb t ht fuel' with ⟨_, h1, _⟩ | h1 <;> rw [hx] at h1 <;> cases h1
+
 /-- … and for the functions the generator writes for a file of the fragment (`toFile`) -/
 theorem gen_complete_file_goLib_partial (hlib : SoyutilsIs F) (heq : SoyutilsEq F) (fuel : Nat) (f : SoyFile)
     (rr : List JsFunc × Scope) (hfile : toFile f = some rr) (msgs : Bool)
